@@ -1335,6 +1335,7 @@ def c16(ctx):
                     work.append(p_["l"])
     loops = cfg.loops()
     it_ok = False
+    val_loops = []
     for h, body in loops.items():
         if any(sb in body for sb in sbs):
             continue
@@ -1352,6 +1353,7 @@ def c16(ctx):
                     continue
                 if seen & caps:
                     it_ok = True
+                    val_loops.append((h, body, bi))
                 else:
                     # the list may travel to the copy inside a plan/context struct, through `?` and destructuring
                     import p_thread
@@ -1360,8 +1362,49 @@ def c16(ctx):
                     tn, _via = p_thread.taint_from(m, roots)
                     if tn & caps0:
                         it_ok = True
+                        val_loops.append((h, body, bi))
     obs.append(Ob("R-ORDER", mkkey("R-ORDER", MAIN, "validate-all-sources", 0), it_ok, m.loc(), MAIN,
                   "a loop over the source list that is handed to the copy completes before the copy starts: %s" % it_ok))
+    # ... and it looks at every source: no iteration can complete without the source's type having been probed
+    # (the "directory without --recursive" rejection hangs on that probe); a validation skipped for some class of
+    # invocations (`if !opts.glob { .. }`) lets a rejected invocation through to the copy
+    import r_err as _re
+    sigm = _re.signal_blocks(m)
+    DIRPROBES = ("std::path::Path::is_dir", "libxcp::paths::is_dir", "std::fs::Metadata::is_dir", "std::fs::FileType::is_dir",
+                 "std::path::Path::metadata", "std::fs::metadata")
+    for n_, (h, body, nb) in enumerate(val_loops[:1]):
+        rec = [bi for bi in body if m.blocks[bi]["term"]["k"] == "switch" and
+               any(rd[0] == OPTS and rd[1] == "recursive" for rd in q.switch_field_reads(m, bi))]
+        if not rec:
+            continue
+        U = set()
+        pv_ = Prov(m)
+        for u in body:
+            if m.blocks[u]["term"]["k"] != "switch":
+                continue
+            for rd in q.switch_field_reads(m, u):
+                if rd[0] != "call" or rd[1] not in DIRPROBES or rd[3] is None or not rd[3].is_term:
+                    continue
+                ct = rd[3].node
+                a0 = op_local(ct["args"][0]) if ct.get("args") else None
+                if a0 is None:
+                    continue
+                atoms_, _ff, _seen = pv_.origins(a0)
+                # the probed path is the loop's item (not the destination, probed once outside or inside the loop)
+                if any(a_.kind == "call" and a_.site is not None and a_.site.bb == nb for a_ in atoms_):
+                    U.add(u)
+        nt = m.blocks[nb]["term"]
+        sw = m.blocks[nt["target"]]["term"] if nt.get("target") is not None else None
+        if not U or sw is None or sw["k"] != "switch":
+            obs.append(anchor_ob("R-ORDER", "the validation loop probes each source's type"))
+            continue
+        explicit = {int(v): tb for v, tb in sw["targets"]}
+        some_t = explicit.get(1, sw["otherwise"])
+        r_ = cfg.reach([some_t], blocked=set(U) | set(sigm))
+        okp = nb not in r_ and not any(sb in r_ for sb in sbs)
+        obs.append(Ob("R-ORDER", mkkey("R-ORDER", MAIN, "validate-all-sources", 0, "every-source-probed"), okp, m.loc(), MAIN,
+                      "no iteration of the validation loop completes without the source's type being probed: %s" % okp,
+                      None if okp else dict(loop_header="bb%d" % h, probes=sorted(U))))
     # the walk follows a symlink given as a source (walkdir follows root links), so the validation must too:
     # an lstat-based test accepts a dangling link, which then fails in the walker after earlier sources were copied
     k = 0
